@@ -16,6 +16,8 @@ if TYPE_CHECKING:
     from lbry.dht.peer import PeerManager, KademliaPeer
 
 log = logging.getLogger(__name__)
+# never ask a single node for more pages of blob peers than this, whatever page count its replies claim
+MAX_PAGES_PER_PEER = 64
 
 
 class FindResponse:
@@ -337,7 +339,8 @@ class IterativeValueFinder(IterativeFinder):
                   already_known + len(parsed.found_compact_addresses))
         if len(self.discovered_peers[peer]) != already_known + len(parsed.found_compact_addresses):
             log.warning("misbehaving peer %s:%i returned duplicate peers for blob", peer.address, peer.udp_port)
-        elif len(parsed.found_compact_addresses) >= constants.K and self.peer_pages[peer] < parsed.pages:
+        elif len(parsed.found_compact_addresses) >= constants.K and \
+                self.peer_pages[peer] < min(parsed.pages, MAX_PAGES_PER_PEER):
             # the peer returned a full page and indicates it has more
             self.peer_pages[peer] += 1
             if peer in self.contacted:
